@@ -4,6 +4,7 @@
    board-listing filters / title masking of ptt/board_list.go and ptttype/board_summary.go.
    PERM_* / BRD_* / NBRD_* are the values gosync regenerates from the Go source on every run. *)
 From Verif Require Import Base.Common Gen.Consts_default.
+From Verif Require Gen.Consts_docker.      (* the production build (-tags docker): qualified names only *)
 
 Definition has (x m : Z) : bool := negb (Z.land x m =? 0).      (* x & m != 0 : PERM.HasUserPerm, BrdAttr.HasPerm *)
 
@@ -26,6 +27,40 @@ Definition NBRD_BOARD := ptttype.NBRD_BOARD.
 Definition NBRD_LINE := ptttype.NBRD_LINE.
 Definition NBRD_FOLDER := ptttype.NBRD_FOLDER.
 Definition USE_REAL_DESC := ptttype.USE_REAL_DESC_FOR_HIDDEN_BOARD_IN_MYFAV.
+
+(* The repository is compiled in two configurations: the default one (ptttype/00-config-default.go; tests, the harness)
+   and the production one (ptttype/01-config-docker.go, go build -tags docker). gosync regenerates the constants of
+   both. A constant of the model that a configuration file (re)defines has one value per build. *)
+Inductive build := Default | Docker.
+Definition use_real_desc (c : build) : Z :=
+  match c with
+  | Default => Gen.Consts_default.ptttype.USE_REAL_DESC_FOR_HIDDEN_BOARD_IN_MYFAV
+  | Docker => Gen.Consts_docker.ptttype.USE_REAL_DESC_FOR_HIDDEN_BOARD_IN_MYFAV
+  end.
+Definition max_board (c : build) : Z :=
+  match c with Default => Gen.Consts_default.ptttype.MAX_BOARD | Docker => Gen.Consts_docker.ptttype.MAX_BOARD end.
+(* the permission / attribute / status words of the model, as the named build has them (same order as C07_constants) *)
+Definition build_words (c : build) : list Z :=
+  match c with
+  | Default =>
+      [Gen.Consts_default.ptttype.PERM_BASIC; Gen.Consts_default.ptttype.PERM_LOGINOK; Gen.Consts_default.ptttype.PERM_BM;
+       Gen.Consts_default.ptttype.PERM_BOARD; Gen.Consts_default.ptttype.PERM_SYSOP; Gen.Consts_default.ptttype.PERM_NOCITIZEN;
+       Gen.Consts_default.ptttype.PERM_POLICE_MAN; Gen.Consts_default.ptttype.PERM_POLICE;
+       Gen.Consts_default.ptttype.BRD_GROUPBOARD; Gen.Consts_default.ptttype.BRD_HIDE; Gen.Consts_default.ptttype.BRD_POSTMASK;
+       Gen.Consts_default.ptttype.BRD_SYMBOLIC; Gen.Consts_default.ptttype.BRD_OVER18;
+       Gen.Consts_default.ptttype.NBRD_INVALID; Gen.Consts_default.ptttype.NBRD_FAV; Gen.Consts_default.ptttype.NBRD_BOARD;
+       Gen.Consts_default.ptttype.NBRD_LINE; Gen.Consts_default.ptttype.NBRD_FOLDER;
+       Gen.Consts_default.ptttype.USE_REAL_DESC_FOR_HIDDEN_BOARD_IN_MYFAV]
+  | Docker =>
+      [Gen.Consts_docker.ptttype.PERM_BASIC; Gen.Consts_docker.ptttype.PERM_LOGINOK; Gen.Consts_docker.ptttype.PERM_BM;
+       Gen.Consts_docker.ptttype.PERM_BOARD; Gen.Consts_docker.ptttype.PERM_SYSOP; Gen.Consts_docker.ptttype.PERM_NOCITIZEN;
+       Gen.Consts_docker.ptttype.PERM_POLICE_MAN; Gen.Consts_docker.ptttype.PERM_POLICE;
+       Gen.Consts_docker.ptttype.BRD_GROUPBOARD; Gen.Consts_docker.ptttype.BRD_HIDE; Gen.Consts_docker.ptttype.BRD_POSTMASK;
+       Gen.Consts_docker.ptttype.BRD_SYMBOLIC; Gen.Consts_docker.ptttype.BRD_OVER18;
+       Gen.Consts_docker.ptttype.NBRD_INVALID; Gen.Consts_docker.ptttype.NBRD_FAV; Gen.Consts_docker.ptttype.NBRD_BOARD;
+       Gen.Consts_docker.ptttype.NBRD_LINE; Gen.Consts_docker.ptttype.NBRD_FOLDER;
+       Gen.Consts_docker.ptttype.USE_REAL_DESC_FOR_HIDDEN_BOARD_IN_MYFAV]
+  end.
 
 (* ------------------------------------------------------------------ the abstract input record *)
 (* one caller (whose uid is a valid, non-zero uid) against one board *)
@@ -209,13 +244,18 @@ Definition new_attr (attr stat : Z) : Z :=
   if negb (Z.land attr BRD_HIDE =? 0) && (Z.land attr BRD_POSTMASK =? 0) && (stat =? NBRD_BOARD)
   then Z.lor attr BRD_POSTMASK else attr.
 
-(* parseBoardSummary *)
-Definition parse_summary (parse_folder : bool) (bid stat attr : Z) (gop : bool) : summary :=
+(* parseBoardSummary; [urd] is the compile-time option USE_REAL_DESC_FOR_HIDDEN_BOARD_IN_MYFAV the code was built with
+   (NewBoardSummaryRawWithReason fills the title of the 'refused' summary when it is on) *)
+Definition parse_summary_with (urd : Z) (parse_folder : bool) (bid stat attr : Z) (gop : bool) : summary :=
   if negb (Z.land stat NBRD_LINE =? 0) then mk_summary bid stat 0 false
   else if negb parse_folder && negb (Z.land stat NBRD_FOLDER =? 0) then mk_summary bid stat 0 false
-  else if negb gop && (stat =? NBRD_INVALID) then mk_summary bid stat attr (negb (USE_REAL_DESC =? 0))
+  else if negb gop && (stat =? NBRD_INVALID) then mk_summary bid stat attr (negb (urd =? 0))
   else mk_summary bid stat attr true.
+Definition parse_summary := parse_summary_with USE_REAL_DESC.       (* the default build: what the harness links *)
 
+Definition summarize_with (urd : Z) (parse_folder : bool) (u : user) (b : board) : summary :=
+  let i := row u b in
+  parse_summary_with urd parse_folder (b_bid b) (perm_stat i) (new_attr (b_attr b) (perm_stat i)) (group_op i).
 Definition summarize (parse_folder : bool) (u : user) (b : board) : summary :=
   let i := row u b in
   parse_summary parse_folder (b_bid b) (perm_stat i) (new_attr (b_attr b) (perm_stat i)) (group_op i).
@@ -277,6 +317,10 @@ Definition class_listable (u : user) (b : board) : bool := b_named b && is_group
 (* LoadBoardSummary: always answers; parseBoardSummary masks *)
 Definition load_board_summary (u : user) (b : board) : summary :=
   summarize (negb (Z.land (b_attr b) BRD_GROUPBOARD =? 0)) u b.
+(* the same function compiled with the option at [urd] / in build [c] *)
+Definition load_board_summary_with (urd : Z) (u : user) (b : board) : summary :=
+  summarize_with urd (negb (Z.land (b_attr b) BRD_GROUPBOARD =? 0)) u b.
+Definition load_board_summary_in (c : build) : user -> board -> summary := load_board_summary_with (use_real_desc c).
 
 (* ------------------------------------------------------------------ wire *)
 Definition zb (b : bool) : Z := if b then 1 else 0.
@@ -300,7 +344,7 @@ Definition bits_of (i : inp) : list Z :=
 (* op 1: [ulevel; over18; inbm; friend; namedbm] [battr; blevel]  ->
      status, perm_stat, group_op,
      six article entry points (1 data / 0 not permitted), four listings + summary (code, attr) *)
-Definition run_row (ulevel : Z) (o18 inbm fr nbm : bool) (battr blevel : Z) : list Z :=
+Definition run_row_in (c : build) (ulevel : Z) (o18 inbm fr nbm : bool) (battr blevel : Z) : list Z :=
   let i := abs ulevel o18 inbm fr nbm battr blevel in
   let u := mk_user ulevel o18 in
   let b := mk_board 10 true battr blevel inbm fr nbm true in
@@ -315,13 +359,19 @@ Definition run_row (ulevel : Z) (o18 inbm fr nbm : bool) (battr blevel : Z) : li
   ++ code_listing (load_autocomplete_boards u [b])
   ++ code_listing (load_boards_by_bids u [b])
   ++ code_listing (load_hot_boards u [b])
-  ++ code_listing [load_board_summary u b]
+  ++ code_listing [load_board_summary_in c u b]
   (* the bbs wrappers: same guards after loading the caller by name *)
   ++ [code_valid (ep_is_board_valid_user i);
       code_outcome (ep_load_general_articles i 2 [1; 2]);
       code_outcome (ep_load_bottom_articles i 1 [1]);
       code_outcome (ep_read_post i 77 196)]
-  ++ code_listing [load_board_summary u b].
+  ++ code_listing [load_board_summary_in c u b].
+
+Definition run_row := run_row_in Default.
+(* op 9: [9; build] user board: op 1 in the named build (0 default, 1 -tags docker). Only the single-board summary reads a
+   per-build option; a listing never reaches the branch that does (Proofs/C07.v: summarize_any_option).
+   op 10: [10; build]: the options of that build the summary depends on, and MAX_BOARD (which tells the two builds apart) *)
+Definition build_of (z : Z) : option build := if z =? 0 then Some Default else if z =? 1 then Some Docker else None.
 
 (* op 3: the entry points take the board number and the board name separately; permission is evaluated on the
    board with that number, the files read are those of the board with that name *)
@@ -433,6 +483,16 @@ Definition run_case (args : list (list Z)) : list Z :=
   | [[6; v]; [ulevel; o18; inbm; fr; nbm]; [battr; blevel]] => run_listing v ulevel (bz o18) (bz inbm) (bz fr) (bz nbm) battr blevel
   | [[7; mode; cls; sort]; [ulevel; o18; inbm; fr; nbm]; [battr; blevel]; [lvl]; chain; fx] =>
       run_class mode ulevel (bz o18) (bz inbm) (bz fr) (bz nbm) battr blevel lvl chain fx
+  | [[9; cfg]; [ulevel; o18; inbm; fr; nbm]; [battr; blevel]] =>
+      match build_of cfg with
+      | Some c => run_row_in c ulevel (bz o18) (bz inbm) (bz fr) (bz nbm) battr blevel
+      | None => [ST_BADCASE]
+      end
+  | [[10; cfg]] =>
+      match build_of cfg with
+      | Some c => [ST_OK; zb (negb (use_real_desc c =? 0)); max_board c]
+      | None => [ST_BADCASE]
+      end
   (* op 2: the abstract row of the numbers, then the specification's verdicts may_read, may_list *)
   | [[2]; [ulevel; o18; inbm; fr; nbm]; [battr; blevel]] =>
       let i := abs ulevel (bz o18) (bz inbm) (bz fr) (bz nbm) battr blevel in
